@@ -85,6 +85,7 @@ pub fn run(r: &Report) {
     );
     // ---- serde
     let mut txs = gen::txs_witness_classes();
+    txs.extend(gen::txs_input_variants());
     txs.extend(gen::txs_shapes().into_iter().step_by(if thorough { 1 } else { 3 }));
     let libtxs: Vec<elements::Transaction> = txs.iter().map(to_tx).chain(crate::props::c04::blinded_samples(r.seed, 3)).collect();
     r.set_extra("transactions", json!(libtxs.len()));
